@@ -1,0 +1,141 @@
+// Copyright 2025 The Go Authors. All rights reserved.
+// Use of this source code is governed by a BSD-style
+// license that can be found in the LICENSE file.
+
+//go:build verif
+
+// Package verifhook provides event hooks for external verification harnesses.
+//
+// This is the recording variant (build tag "verif"). Recording is off until
+// Start is called; when off, a hook costs one atomic load.
+package verifhook
+
+import (
+	"runtime"
+	"sync"
+	"sync/atomic"
+	"unsafe"
+)
+
+// Enabled reports whether the hooks record anything in this build.
+const Enabled = true
+
+// Kinds of lazily initialized objects.
+const (
+	MessageInfo uint8 = 1
+	FileDesc    uint8 = 2
+)
+
+// Phases of a double-checked initialization (slow path).
+const (
+	Enter       uint8 = 1
+	Locked      uint8 = 2
+	RecheckHit  uint8 = 3
+	RecheckMiss uint8 = 4
+	BodyDone    uint8 = 5
+	Stored      uint8 = 6
+	Unlocking   uint8 = 7
+)
+
+// Event kinds.
+const (
+	EvLazyEnter     uint8 = 1
+	EvLazyDecoded   uint8 = 2
+	EvLazyPublished uint8 = 3
+	EvInit          uint8 = 4
+)
+
+// Event is one recorded hook call.
+type Event struct {
+	Seq   uint64  // global sequence number (see Tick)
+	G     uint64  // goroutine id
+	Ev    uint8   // EvLazyEnter, ...
+	Kind  uint8   // EvInit: MessageInfo or FileDesc
+	Phase uint8   // EvInit: phase
+	Num   int32   // lazy events: field number
+	Obj   uintptr // message / MessageInfo / File
+	Mine  uintptr // lazy events: the freshly decoded object
+	Cell  uintptr // EvLazyPublished: the field pointer after the CAS
+}
+
+var (
+	on     atomic.Bool
+	seq    atomic.Uint64
+	mu     sync.Mutex
+	events []Event
+)
+
+// Start clears the log and starts recording.
+func Start() {
+	mu.Lock()
+	events = events[:0]
+	mu.Unlock()
+	on.Store(true)
+}
+
+// Stop stops recording and returns the log in sequence order of recording.
+func Stop() []Event {
+	on.Store(false)
+	mu.Lock()
+	defer mu.Unlock()
+	out := make([]Event, len(events))
+	copy(out, events)
+	return out
+}
+
+// Tick returns a fresh number of the global sequence, so that a harness can
+// stamp its own observations on the same clock.
+func Tick() uint64 { return seq.Add(1) }
+
+// GoID returns the id of the calling goroutine.
+func GoID() uint64 {
+	var buf [64]byte
+	b := buf[:runtime.Stack(buf[:], false)]
+	// "goroutine 123 [running]:"
+	var id uint64
+	for _, c := range b[len("goroutine "):] {
+		if c < '0' || c > '9' {
+			break
+		}
+		id = id*10 + uint64(c-'0')
+	}
+	return id
+}
+
+func record(e Event) {
+	e.G = GoID()
+	mu.Lock()
+	e.Seq = seq.Add(1)
+	events = append(events, e)
+	mu.Unlock()
+}
+
+// LazyEnter is called when lazyUnmarshal starts for field num of the message at msg.
+func LazyEnter(msg unsafe.Pointer, num int32) {
+	if on.Load() {
+		record(Event{Ev: EvLazyEnter, Obj: uintptr(msg), Num: num})
+	}
+}
+
+// LazyDecoded is called after the field was decoded into the fresh object mine,
+// before it is published.
+func LazyDecoded(msg unsafe.Pointer, num int32, mine unsafe.Pointer) {
+	if on.Load() {
+		record(Event{Ev: EvLazyDecoded, Obj: uintptr(msg), Num: num, Mine: uintptr(mine)})
+	}
+}
+
+// LazyPublished is called after the publishing compare-and-swap; cell is the
+// value of the field pointer read back afterwards.
+func LazyPublished(msg unsafe.Pointer, num int32, mine, cell unsafe.Pointer) {
+	if on.Load() {
+		record(Event{Ev: EvLazyPublished, Obj: uintptr(msg), Num: num, Mine: uintptr(mine), Cell: uintptr(cell)})
+	}
+}
+
+// Init is called at the phases of MessageInfo.initOnce and File.lazyInitOnce.
+func Init(kind uint8, obj unsafe.Pointer, phase uint8) {
+	if on.Load() {
+		record(Event{Ev: EvInit, Kind: kind, Obj: uintptr(obj), Phase: phase})
+	}
+}
